@@ -92,8 +92,20 @@ def d2(rep, w):
                 tys = [g.crate.tstr(a) for a in (t['f'].get('ra') or t['f'].get('a') or [])]
                 if tys == ['f64']:
                     pl = op_place(t['args'][0])
-                    if src is None or any(src in q for q in org.get(pl['l'], ())):
-                        ok = True
+                    # the text handed to the parser is the token's text, possibly after a str -> String step that removes separators
+                    work, seen = [pl['l']], set()
+                    while work and not ok:
+                        l = work.pop()
+                        if l in seen:
+                            continue
+                        seen.add(l)
+                        for q in org.get(l, ()):
+                            if src is None or src in q:
+                                ok = True
+                            elif q[0][0] == 'call' and strip_generics(q[0][2]).rsplit('::', 1)[-1] in ('replace', 'replacen', 'to_owned', 'to_string', 'trim', 'from', 'into', 'collect', 'filter', 'chars'):
+                                ap = op_place(g.blocks[q[0][1]]['t']['args'][0]) if g.blocks[q[0][1]]['t']['args'] else None
+                                if ap is not None:
+                                    work.append(ap['l'])
         r.check(ok, '%s parses with str::parse::<f64>' % nm.rsplit('::', 1)[-1], '%s no longer reads numbers with str::parse::<f64> on the whole token/string' % nm, g.loc())
     # ... and the text is handed to the parser unconditionally: the place where the number is produced (the constant emitted for a literal,
     # the Value::Number returned by to_num) is dominated by the parse call. A pre-check that refuses some texts before parsing ("does not
@@ -150,46 +162,96 @@ def d2(rep, w):
 
 
 def d3(rep, w):
-    r = rep.rule('D3', 'the number lexer consumes a `.` only when a digit follows it, and otherwise only digits', floor=3)
+    """the number lexer never swallows a `.` that starts a method call or a range: whatever Scanner::number consumes has been
+    looked at first, and a `.` is consumed only when the character after it is known to be a digit. Decided by a small forward
+    analysis over what is known about the next two characters (from is_digit(peek()), is_digit(peek_next()), peek() == "c"):
+    each advance() uses up the first of them."""
+    r = rep.rule('D3', 'the number lexer consumes a `.` only when a digit follows it, and otherwise only characters it has identified', floor=3)
     f = w.require_fn(SC + 'number', 'C19')
-    dom = f.dominators()
-    # true-edge targets of is_digit(..) tests, keyed by which look-ahead they test
-    guards = []
-    for bi, t in f.calls():
-        if callee_name(t) != 'yarel::scanner::is_digit':
-            continue
-        pl = op_place(t['args'][0])
-        which = None
-        for q in origins(f).get(pl['l'], ()) if pl else ():
-            if q[0][0] == 'call':
-                which = q[0][2].rsplit('::', 1)[-1]
-        b = t.get('to')
-        for _ in range(4):
-            tt = f.blocks[b]['t']
-            if tt['t'] == 'switch':
-                guards.append((which, tt['else']))
-                break
-            b = tt.get('to') if tt['t'] == 'goto' else None
-            if b is None:
-                break
-    dot_true = []
     forg = origins(f)
+    succ = f.succs()
+
+    def look_pos(o):
+        """1 / 2 if the operand is the result of peek() / peek_next()"""
+        pl = op_place(o)
+        for q in forg.get(pl['l'], ()) if pl else ():
+            if q[0][0] == 'call':
+                nm = q[0][2].rsplit('::', 1)[-1]
+                if nm == 'peek':
+                    return 1
+                if nm == 'peek_next':
+                    return 2
+        return None
+    tests = {}     # result local -> (position, class, holds on the true edge?)
     for bi, t in f.calls():
         n = callee_name(t) or ''
-        if n.endswith('::eq') and any('"."' in f.operand_strings(forg, a) for a in t['args']):
-            b = t.get('to')
-            tt = f.blocks[b]['t']
-            if tt['t'] == 'switch':
-                dot_true.append(tt['else'])
+        if t['dst'].get('p'):
+            continue
+        if n == 'yarel::scanner::is_digit' and t['args']:
+            pos = look_pos(t['args'][0])
+            if pos:
+                tests[t['dst']['l']] = (pos, 'digit', True)
+        elif n.endswith('::eq') or n.endswith('::ne'):
+            consts = [f.operand_strings(forg, a) for a in t['args']]
+            for k in (0, 1):
+                if consts[k] and len(t['args']) == 2:
+                    pos = look_pos(t['args'][1 - k])
+                    c = sorted(consts[k])[0]
+                    if pos:
+                        tests[t['dst']['l']] = (pos, 'dot' if c == '"."' else 'lit', n.endswith('::eq'))
     advs = [bi for bi, t in f.calls() if callee_name(t) == SC + 'advance']
     if len(advs) < 3:
         raise Broken('C19', 'floor', 'Scanner::number: %d advance calls' % len(advs))
+    TOP = ('?', '?')
+    state = {0: TOP}
+    work = [0]
+
+    def meet(a, b):
+        return tuple(x if x == y else '?' for x, y in zip(a, b))
+    verdict = {}
+    while work:
+        b = work.pop()
+        st = state[b]
+        tt = f.blocks[b]['t']
+        outs = []
+        if tt['t'] == 'call' and callee_name(tt) == SC + 'advance':
+            verdict[b] = meet(verdict[b], st) if b in verdict else st
+            outs = [(x, (st[1], '?')) for x in succ[b]]
+        elif tt['t'] == 'call' and (callee_name(tt) or '').startswith(SC) and callee_name(tt) not in (SC + 'peek', SC + 'peek_next', SC + 'is_at_end'):
+            outs = [(x, TOP) for x in succ[b]]       # another scanner method may move the cursor
+        elif tt['t'] == 'switch' and (op_place(tt['d']) or {}).get('l') in tests and not (op_place(tt['d']) or {}).get('p'):
+            pos, cls, on_true = tests[op_place(tt['d'])['l']]
+            for x in succ[b]:
+                is_true = x == tt['else']
+                if is_true == on_true:
+                    ns = tuple(cls if k + 1 == pos else v for k, v in enumerate(st))
+                else:
+                    ns = st
+                outs.append((x, ns))
+        else:
+            outs = [(x, st) for x in succ[b]]
+        for x, ns in outs:
+            if x not in f.normal_blocks():
+                continue
+            if x not in state:
+                state[x] = ns
+                work.append(x)
+            else:
+                m = meet(state[x], ns)
+                if m != state[x]:
+                    state[x] = m
+                    work.append(x)
     for n, a in enumerate(sorted(advs)):
-        d = dom.get(a, ())
-        digit_guard = any(g in d for (wh, g) in guards if wh == 'peek')
-        dot_guard = any(g in d for g in dot_true) and any(g in d for (wh, g) in guards if wh == 'peek_next')
-        r.check(digit_guard or dot_guard, 'Scanner::number advance #%d is guarded (%s)' % (n, 'digit' if digit_guard else 'dot followed by digit'),
-                'the number lexer consumes a character that is neither a digit nor a `.` followed by a digit: `1.len` / `1..3` lose their dot', f.loc(f.blocks[a]['t'].get('sp')))
+        st = verdict.get(a)
+        if st is None:
+            continue
+        if st[0] == 'dot':
+            ok, what = st[1] == 'digit', 'dot followed by digit'
+        else:
+            ok, what = st[0] in ('digit', 'lit'), 'digit' if st[0] == 'digit' else 'identified character'
+        r.check(ok, 'Scanner::number advance #%d is guarded (%s)' % (n, what),
+                'the number lexer consumes a character that is neither identified beforehand nor a `.` followed by a digit (known here: %s): `1.len` / `1..3` lose their dot' % (st,),
+                f.loc(f.blocks[a]['t'].get('sp')))
 
 
 def d4(rep, w):
